@@ -723,6 +723,11 @@ def block_cases(files):
             yield {"k": "blk", "f": list(rel), "plan": [[6, 1], [s, 0]]}  # one 1024-byte block, then smaller
             yield {"k": "blk", "f": list(rel), "plan": [[s, 1 << (6 - s)], [6, 0]]}  # 1024 bytes in small blocks, then 1024-byte blocks
         yield {"k": "blk", "f": list(rel), "plan": [[0, 4], [2, 3], [1, 6], [3, 0]]}
+        # size exponent 7 (RFC 8323 BERT: the block number counts 1024-byte units); a server may refuse it
+        # on a datagram transport, but whatever it serves must still be the file's bytes
+        yield {"k": "blk", "f": list(rel), "plan": [[7, 0]]}
+        yield {"k": "blk", "f": list(rel), "plan": [[6, 1], [7, 0]]}
+        yield {"k": "blk", "f": list(rel), "plan": [[7, 1], [3, 0]]}
 
 
 def uni_string(r):
@@ -948,6 +953,9 @@ async def block_fetch(w, case, write, path, plan, label="tree"):
         except (OSError, ValueError):
             rep.count("block_fetch_unreadable_by_harness")
             return
+    def unit(szx):
+        return 16 << min(szx, 6)  # exponent 7 counts 1024-byte units
+
     got = bytearray()
     pos = 0  # the client's position: end of the last block received, as described by its Block2 option
     steps = [list(s) for s in plan]
@@ -968,11 +976,15 @@ async def block_fetch(w, case, write, path, plan, label="tree"):
             opts = []
         else:
             use = want_szx
-            if pos % (16 << use):
+            if pos % unit(use):
                 rep.count("block_plan_misaligned")  # this offset cannot be expressed in the planned size yet
                 use = prev_szx
-            opts = [(23, rc.block_bytes(pos // (16 << use), False, use))]
+            opts = [(23, rc.block_bytes(pos // unit(use), False, use))]
         resp, _ = await w.request(case, "blk", write, GET, path, opts)
+        if use == 7 and resp is not None and resp.type != rc.RST and (resp.code >> 5) == 4:
+            rep.count("block_szx7_refused")
+            rep.monitor("block_fetch")
+            return
         if resp is None or resp.type == rc.RST or (resp.code >> 5) != 2:
             outcome = ("error-response", "block request %r answered %s" % (opts, None if resp is None else rc.code_str(resp.code)))
             break
@@ -984,17 +996,20 @@ async def block_fetch(w, case, write, path, plan, label="tree"):
                 rep.count("block2_absent_mid_transfer")
             break
         rnum, more, rszx = rc.block_value(b2)
-        if rszx > 6:
+        if rszx > 6 and use != 7:
             outcome = ("bad-szx", "response carries SZX 7")
             break
-        if rnum * (16 << rszx) != pos:
-            outcome = ("offset-mismatch", "asked for offset %d, response describes offset %d" % (pos, rnum * (16 << rszx)))
+        if rnum * unit(rszx) != pos:
+            outcome = ("offset-mismatch", "asked for offset %d, response describes offset %d" % (pos, rnum * unit(rszx)))
+            break
+        if more and (len(resp.payload) % unit(rszx) or not resp.payload):
+            outcome = ("odd-block", "non-final block of %d bytes with size exponent %d" % (len(resp.payload), rszx))
             break
         got += resp.payload
         rep.monitor("block_fetch_bytes", len(resp.payload))
         if not more:
             break
-        pos = (rnum + 1) * (16 << rszx)
+        pos = rnum * unit(rszx) + len(resp.payload) if rszx == 7 else (rnum + 1) * (16 << rszx)
         prev_szx = rszx
         if want_szx is None or rszx < use:
             want_szx = rszx  # follow the server's choice / reduction
